@@ -69,13 +69,38 @@ static void wfail(const char *what)
    node != 0: a struct (padding may legitimately be undefined, so only
    addressability is required); node == 0: a byte buffer the API exposes (under
    memcheck every byte must also be defined) */
+/* a value that cannot be a pointer into this process's application memory (small integers, two
+   32-bit enum values written over a pointer, addresses in the sanitizer's shadow / gap, kernel
+   half): reported as a walker finding instead of dereferencing it */
+static int wild_ptr(const void *p)
+{
+    uintptr_t a = (uintptr_t) p;
+    if (a < 0x10000u)
+    {
+        return 1;
+    }
+#if defined(__x86_64__)
+    if (a >= 0x800000000000ull)
+    {
+        return 1;
+    }
+# ifdef C09_ASAN
+    if (a >= 0x7fff8000ull && a < 0x10007fff8000ull)
+    {
+        return 1;   /* ASan x86-64 layout: shadow and shadow gap, never application memory */
+    }
+# endif
+#endif
+    return 0;
+}
+
 static int rg_bad(const void *p, size_t n, const char *what, int node)
 {
     if (n == 0)
     {
         return 0;
     }
-    if (p == NULL)
+    if (p == NULL || wild_ptr(p))
     {
         return 1;
     }
@@ -217,35 +242,124 @@ static void walk_dn_attr(const char *v, int type, size_t len)
     }
 }
 
-static void walk_dn(const x509DNattributes_t *dn, int accessors)
+/* attributeOrder[] against the stored values.
+   level 0: object of a failed parse kept in a partial bundle - memory checks only;
+   level 1: order array well-formed and never ahead of the values (the authorityKeyIdentifier name: the
+            extension may be repeated, the parser then restarts the order array but keeps the values);
+   level 2: parsed exactly once into a zeroed struct (certificate issuer / subject, CRL issuer): the order
+            array accounts for every stored value until it saturates at DN_NUM_ATTRIBUTES_MAX, and the
+            accessors an application uses to print a name work */
+static void walk_dn_order(const x509DNattributes_t *dn, int level, unsigned nou, unsigned ndc)
+{
+    /* id, value pointer (NULL for the two list types) */
+    struct
+    {
+        int id;
+        const char *val;
+        unsigned seen;
+    } single[] = {
+        { ATTRIB_COUNTRY_NAME, dn->country, 0 }, { ATTRIB_ORGANIZATION, dn->organization, 0 },
+        { ATTRIB_DN_QUALIFIER, dn->dnQualifier, 0 }, { ATTRIB_SERIALNUMBER, dn->serialNumber, 0 },
+        { ATTRIB_STATE_PROVINCE, dn->state, 0 }, { ATTRIB_COMMON_NAME, dn->commonName, 0 },
+#ifdef USE_EXTRA_DN_ATTRIBUTES_RFC5280_SHOULD
+        { ATTRIB_LOCALITY, dn->locality, 0 }, { ATTRIB_TITLE, dn->title, 0 }, { ATTRIB_SURNAME, dn->surname, 0 },
+        { ATTRIB_GIVEN_NAME, dn->givenName, 0 }, { ATTRIB_INITIALS, dn->initials, 0 },
+        { ATTRIB_PSEUDONYM, dn->pseudonym, 0 }, { ATTRIB_GEN_QUALIFIER, dn->generationQualifier, 0 },
+#endif
+#ifdef USE_EXTRA_DN_ATTRIBUTES
+        { ATTRIB_STREET_ADDRESS, dn->streetAddress, 0 }, { ATTRIB_POSTAL_ADDRESS, dn->postalAddress, 0 },
+        { ATTRIB_TELEPHONE_NUMBER, dn->telephoneNumber, 0 }, { ATTRIB_UID, dn->uid, 0 },
+        { ATTRIB_NAME, dn->name, 0 }, { ATTRIB_EMAIL, dn->email, 0 },
+#endif
+    };
+    const unsigned nsingle = sizeof single / sizeof single[0];
+    unsigned i, j, cnt = 0, ou_o = 0, dc_o = 0, stored = nou + ndc;
+    int ended = 0;
+
+    CK(sizeof dn->attributeOrder / sizeof dn->attributeOrder[0] == DN_NUM_ATTRIBUTES_MAX, "dn-order-capacity");
+    for (i = 0; i < DN_NUM_ATTRIBUTES_MAX; i++)
+    {
+        int id = (int) dn->attributeOrder[i];
+        if (id == 0)
+        {
+            ended = 1;
+            continue;
+        }
+        CK(!ended, "dn-order-entry-behind-terminator");
+        cnt++;
+        if (id == ATTRIB_ORG_UNIT)
+        {
+            ou_o++;
+            continue;
+        }
+        if (id == ATTRIB_DOMAIN_COMPONENT)
+        {
+            dc_o++;
+            continue;
+        }
+        for (j = 0; j < nsingle && single[j].id != id; j++)
+        {
+        }
+        CK(j < nsingle, "dn-order-invalid-attribute-id");
+        CK(single[j].seen++ == 0, "dn-order-duplicate-single-attribute");
+        CK(single[j].val != NULL, "dn-order-entry-without-value");
+    }
+    CK(cnt <= DN_NUM_ATTRIBUTES_MAX, "dn-order-count-above-capacity");
+    CK(ou_o <= nou, "dn-order-more-orgunits-than-stored");
+    CK(dc_o <= ndc, "dn-order-more-domaincomponents-than-stored");
+    CK(psX509GetNumDNAttributes(dn) == (int32_t) cnt, "dn-num-attributes-vs-order");
+    if (level < 2)
+    {
+        return;
+    }
+    for (j = 0; j < nsingle; j++)
+    {
+        if (single[j].val)
+        {
+            stored++;
+            CK(single[j].seen || cnt == DN_NUM_ATTRIBUTES_MAX, "dn-value-missing-from-order");
+        }
+    }
+    CK(cnt == (stored < DN_NUM_ATTRIBUTES_MAX ? stored : DN_NUM_ATTRIBUTES_MAX), "dn-order-count-vs-stored-values");
+    if (cnt < DN_NUM_ATTRIBUTES_MAX)
+    {
+        CK(ou_o == nou && dc_o == ndc, "dn-order-list-count-mismatch");
+    }
+}
+
+static void walk_dn(const x509DNattributes_t *dn, int level)
 {
     const x509OrgUnit_t *ou;
     const x509DomainComponent_t *dc;
-    unsigned n;
+    unsigned n, nou = 0, ndc = 0;
 
-    walk_dn_attr(dn->country, dn->countryType, dn->countryLen);
-    walk_dn_attr(dn->organization, dn->organizationType, dn->organizationLen);
-    walk_dn_attr(dn->dnQualifier, dn->dnQualifierType, dn->dnQualifierLen);
-    walk_dn_attr(dn->serialNumber, dn->serialNumberType, dn->serialNumberLen);
-    walk_dn_attr(dn->state, dn->stateType, dn->stateLen);
-    walk_dn_attr(dn->commonName, dn->commonNameType, dn->commonNameLen);
+    /* a value pointer that is NULL has no type / length either (the struct starts zeroed) */
+#define DN_ATTR(f) do { walk_dn_attr(dn->f, dn->f ## Type, dn->f ## Len); \
+        if (level >= 1 && dn->f == NULL) { CK(dn->f ## Len == 0 && dn->f ## Type == 0, "dn-attr-null-with-length"); } } while (0)
+    DN_ATTR(country);
+    DN_ATTR(organization);
+    DN_ATTR(dnQualifier);
+    DN_ATTR(serialNumber);
+    DN_ATTR(state);
+    DN_ATTR(commonName);
 #ifdef USE_EXTRA_DN_ATTRIBUTES_RFC5280_SHOULD
-    walk_dn_attr(dn->locality, dn->localityType, dn->localityLen);
-    walk_dn_attr(dn->title, dn->titleType, dn->titleLen);
-    walk_dn_attr(dn->surname, dn->surnameType, dn->surnameLen);
-    walk_dn_attr(dn->givenName, dn->givenNameType, dn->givenNameLen);
-    walk_dn_attr(dn->initials, dn->initialsType, dn->initialsLen);
-    walk_dn_attr(dn->pseudonym, dn->pseudonymType, dn->pseudonymLen);
-    walk_dn_attr(dn->generationQualifier, dn->generationQualifierType, dn->generationQualifierLen);
+    DN_ATTR(locality);
+    DN_ATTR(title);
+    DN_ATTR(surname);
+    DN_ATTR(givenName);
+    DN_ATTR(initials);
+    DN_ATTR(pseudonym);
+    DN_ATTR(generationQualifier);
 #endif
 #ifdef USE_EXTRA_DN_ATTRIBUTES
-    walk_dn_attr(dn->streetAddress, dn->streetAddressType, dn->streetAddressLen);
-    walk_dn_attr(dn->postalAddress, dn->postalAddressType, dn->postalAddressLen);
-    walk_dn_attr(dn->telephoneNumber, dn->telephoneNumberType, dn->telephoneNumberLen);
-    walk_dn_attr(dn->uid, dn->uidType, dn->uidLen);
-    walk_dn_attr(dn->name, dn->nameType, dn->nameLen);
-    walk_dn_attr(dn->email, dn->emailType, dn->emailLen);
+    DN_ATTR(streetAddress);
+    DN_ATTR(postalAddress);
+    DN_ATTR(telephoneNumber);
+    DN_ATTR(uid);
+    DN_ATTR(name);
+    DN_ATTR(email);
 #endif
+#undef DN_ATTR
     for (n = 0, ou = dn->orgUnit; ou; ou = ou->next)
     {
         CK(++n <= 70000, "dn-orgunit-list-unbounded");
@@ -253,6 +367,7 @@ static void walk_dn(const x509DNattributes_t *dn, int accessors)
         CK(ou->name != NULL, "dn-orgunit-null-name");
         walk_dn_attr(ou->name, ou->type, ou->len);
     }
+    nou = n;
     for (n = 0, dc = dn->domainComponent; dc; dc = dc->next)
     {
         CK(++n <= 70000, "dn-dc-list-unbounded");
@@ -260,11 +375,21 @@ static void walk_dn(const x509DNattributes_t *dn, int accessors)
         CK(dc->name != NULL, "dn-dc-null-name");
         walk_dn_attr(dc->name, dc->type, dc->len);
     }
+    ndc = n;
     if (dn->dnenc)
     {
         RG(dn->dnenc, dn->dnencLen, "dn-dnenc-region");
     }
-    if (accessors)
+    else if (level >= 1)
+    {
+        CK(dn->dnencLen == 0, "dn-dnenc-null-with-length");
+    }
+    if (level >= 1)
+    {
+        walk_dn_order(dn, level, nou, ndc);
+        CK(psX509GetNumOrganizationalUnits(dn) == (int32_t) nou, "dn-num-orgunits-accessor");
+    }
+    if (level >= 2)
     {
         /* the accessors an application uses to print a name */
         int32_t i, na = psX509GetNumDNAttributes(dn);
@@ -275,20 +400,39 @@ static void walk_dn(const x509DNattributes_t *dn, int accessors)
             short vt;
             psSize_t vl;
             char *val = NULL;
-            if (psX509GetDNAttributeTypeAndValue(dn, i, &at, &vt, &vl, &val) >= 0 && val)
-            {
-                RG(val, vl, "dn-accessor-value-region");
-            }
+            CK(psX509GetDNAttributeTypeAndValue(dn, i, &at, &vt, &vl, &val) >= 0, "dn-accessor-fails-on-ordered-attribute");
+            CK(val != NULL, "dn-accessor-null-value");
+            CK(at == dn->attributeOrder[i], "dn-accessor-type-vs-order");
+            RG(val, vl, "dn-accessor-value-region");
         }
 #ifdef USE_FULL_CERT_PARSE
         {
+            /* both print orders; the reported length is the length of the string, and the two strings
+               hold the same fields (only the separator of the first field may differ) */
             char *s = NULL;
-            size_t sl = 0;
+            size_t sl = 0, l0 = 0, l1 = 0;
+            int got = 0;
             if (psX509GetOnelineDN(dn, &s, &sl, 0) >= 0 && s)
             {
-                RG(s, sl, "dn-oneline-region");
-                (void) cstr_len(s, "dn-oneline-unterminated");
+                RG(s, sl + 1, "dn-oneline-region");
+                l0 = cstr_len(s, "dn-oneline-unterminated");
+                CK(l0 == sl, "dn-oneline-length-vs-strlen");
                 psFree(s, NULL);
+                got++;
+            }
+            s = NULL;
+            sl = 0;
+            if (psX509GetOnelineDN(dn, &s, &sl, CERT_DN_USE_ORIGINAL_ATTRIBUTE_ORDER) >= 0 && s)
+            {
+                RG(s, sl + 1, "dn-oneline-region");
+                l1 = cstr_len(s, "dn-oneline-unterminated");
+                CK(l1 == sl, "dn-oneline-length-vs-strlen");
+                psFree(s, NULL);
+                got++;
+            }
+            if (got == 2)
+            {
+                CK(l0 <= l1 + 2 && l1 <= l0 + 2, "dn-oneline-print-orders-disagree");
             }
             s = NULL;
             if (dn->domainComponent && psX509GetConcatenatedDomainComponent(dn, &s, &sl) >= 0 && s)
@@ -329,23 +473,46 @@ static void walk_gn(const x509GeneralName_t *g, const char *lst)
     }
 }
 
-static void walk_ext(const x509v3extensions_t *e)
+/* ok: the owning object parsed successfully (otherwise memory checks only); pool: the owner's pool */
+static void walk_ext(const x509v3extensions_t *e, int ok, const psPool_t *pool)
 {
+    if (ok)
+    {
+        /* scalar members have small closed value sets; anything else was written by somebody else */
+        CK(e->pool == pool, "ext-pool-vs-owner");
+        CK(e->bc.cA == CA_FALSE || e->bc.cA == CA_UNDEFINED || e->bc.cA == CA_TRUE, "ext-basicconstraints-ca-value");
+        CK((e->keyUsageFlags & ~0xffffu) == 0, "ext-keyusage-flags-value");
+        CK((e->ekuFlags & ~(uint32) (EXT_KEY_USAGE_ANY | EXT_KEY_USAGE_TLS_SERVER_AUTH | EXT_KEY_USAGE_TLS_CLIENT_AUTH |
+                                      EXT_KEY_USAGE_CODE_SIGNING | EXT_KEY_USAGE_EMAIL_PROTECTION |
+                                      EXT_KEY_USAGE_TIME_STAMPING | EXT_KEY_USAGE_OCSP_SIGNING)) == 0, "ext-eku-flags-value");
+    }
     walk_gn(e->san, "san");
     walk_gn(e->issuerAltName, "ian");
     if (e->sk.id)
     {
         RG(e->sk.id, e->sk.len, "ext-skid-region");
     }
+    else if (ok)
+    {
+        CK(e->sk.len == 0, "ext-skid-null-with-length");
+    }
     if (e->ak.keyId)
     {
         RG(e->ak.keyId, e->ak.keyLen, "ext-akid-region");
+    }
+    else if (ok)
+    {
+        CK(e->ak.keyLen == 0, "ext-akid-null-with-length");
     }
     if (e->ak.serialNum)
     {
         RG(e->ak.serialNum, e->ak.serialNumLen, "ext-akid-serial-region");
     }
-    walk_dn(&e->ak.attribs, 0);
+    else if (ok)
+    {
+        CK(e->ak.serialNumLen == 0, "ext-akid-serial-null-with-length");
+    }
+    walk_dn(&e->ak.attribs, ok ? 1 : 0);
 #if defined(USE_FULL_CERT_PARSE) || defined(USE_CERT_GEN)
     walk_gn(e->nameConstraints.permitted, "nc-permitted");
     walk_gn(e->nameConstraints.excluded, "nc-excluded");
@@ -468,9 +635,18 @@ static void walk_cert_chain(psX509Cert_t *c)
             (void) cstr_len(c->notAfter, "cert-notafter-unterminated");
         }
         CK(c->sigHashLen <= MAX_HASH_SIZE, "cert-sighash-len");
-        walk_dn(&c->issuer, c->parseStatus == PS_X509_PARSE_SUCCESS);
-        walk_dn(&c->subject, c->parseStatus == PS_X509_PARSE_SUCCESS);
-        walk_ext(&c->extensions);
+        walk_dn(&c->issuer, c->parseStatus == PS_X509_PARSE_SUCCESS ? 2 : 0);
+        walk_dn(&c->subject, c->parseStatus == PS_X509_PARSE_SUCCESS ? 2 : 0);
+        walk_ext(&c->extensions, c->parseStatus == PS_X509_PARSE_SUCCESS, c->pool);
+        if (c->parseStatus == PS_X509_PARSE_SUCCESS)
+        {
+            CK(c->notBefore != NULL && c->notAfter != NULL, "cert-validity-null");
+            CK(c->notBeforeTimeType == ASN_UTCTIME || c->notBeforeTimeType == ASN_GENERALIZEDTIME, "cert-notbefore-time-type");
+            CK(c->notAfterTimeType == ASN_UTCTIME || c->notAfterTimeType == ASN_GENERALIZEDTIME, "cert-notafter-time-type");
+            CK(c->version >= 0 && c->version <= 2, "cert-version-value");
+            CK((c->uniqueIssuerId != NULL) || c->uniqueIssuerIdLen == 0, "cert-issuer-uid-null-with-length");
+            CK((c->uniqueSubjectId != NULL) || c->uniqueSubjectIdLen == 0, "cert-subject-uid-null-with-length");
+        }
         if (c->parseStatus == PS_X509_PARSE_SUCCESS)
         {
             walk_pubkey(&c->publicKey);
@@ -525,8 +701,10 @@ static void walk_crl(const psX509Crl_t *crl)
         (void) cstr_len(crl->nextUpdate, "crl-nextupdate-unterminated");
     }
     CK(crl->sigHashLen <= MAX_HASH_SIZE, "crl-sighash-len");
-    walk_dn(&crl->issuer, 1);
-    walk_ext(&crl->extensions);
+    CK(crl->nextUpdate == NULL || crl->nextUpdateType == ASN_UTCTIME || crl->nextUpdateType == ASN_GENERALIZEDTIME,
+       "crl-nextupdate-time-type");
+    walk_dn(&crl->issuer, 2);
+    walk_ext(&crl->extensions, 1, crl->pool);
     for (r = crl->revoked; r; r = r->next)
     {
         CK(++n <= 70000, "crl-revoked-list-unbounded");
